@@ -120,9 +120,11 @@ def diff_by_signature(c, ops_file, impl_file, model_file, hbin, exe, per_class=2
         for i in range(a, b):
             if ops[i].startswith("#"):
                 continue
-            if impl[i] != model[i] or impl[i].startswith("FAIL") or impl[i].startswith("panic"):
-                sig = signature(ops[i], impl[i], model[i])
+            if impl[i].startswith("FAIL") or impl[i].startswith("panic"):
+                sig = signature(ops[i], impl[i], model[i])     # a property failure anywhere in the case wins
                 break
+            if impl[i] != model[i] and sig == "clean":
+                sig = signature(ops[i], impl[i], model[i])
         groups.setdefault(sig, []).append((a, b))
     c.cov["failure_classes"] = {k: len(v) for k, v in groups.items() if k != "clean"}
     samples = c.cov["samples"]
@@ -132,7 +134,8 @@ def diff_by_signature(c, ops_file, impl_file, model_file, hbin, exe, per_class=2
             with open(base + ext, "w") as f:
                 for (a, b) in spans:
                     f.write("\n".join(lines[a:b]) + "\n")
-        c.diff(base + ".ops", base + ".impl", base + ".model", stateful=True, hbin=hbin, exe=exe, max_report=per_class)
+        c.diff(base + ".ops", base + ".impl", base + ".model", stateful=True, hbin=hbin, exe=exe, max_report=per_class,
+               prefer_property=True)
     c.cov["samples"] = samples[:6]
 
 
